@@ -4,7 +4,7 @@
    about them are premises.  [L] is the complexity budget + MAX_CONVERSION_DEPTH; the
    generated constants satisfy the premise on it (C13_gen_budget_below_conversion_depth). *)
 From Coq Require Import List ZArith Bool String Arith.
-From Verif Require Import Schema.Model Schema.Proofs Schema.ProofsNorm Schema.ProofsUpgrade gen.Gen_Schema Schema.Run.
+From Verif Require Import Schema.Model Schema.Proofs Schema.ProofsNorm Schema.ProofsUpgrade Schema.ProofsEvolve Schema.ProofsEvolveDoc gen.Gen_Schema Schema.Run.
 Import ListNotations.
 Open Scope list_scope.
 
@@ -98,17 +98,90 @@ Print Assumptions C13_retired_index_never_reused.
 
 (* a document valid under the old schema reads under the upgraded one; every surviving field whose
    type is unchanged is returned unchanged, removed fields are dropped, added ones are absent *)
-Theorem C13_upgrade_preserves_partial :
+Theorem C13_upgrade_preserves_same_types :
   forall (F : fops) (L : limits), IEEE F -> max_depth L <= max_conv L ->
   forall new old s' fs, upgrade_with new old = Some s' -> schema_wf old = true -> same_types s' old ->
     fields_wf fs = true -> fields_canon old fs = true -> schema_validate F L old fs = true ->
     exists raw, readback_fields F fs = Some raw /\
       try_from_doc F L s' raw = Some (filter (fun kv => contains_idx s' (fst kv)) fs).
 Proof. intros F L [H1 H2] HL. exact (upgrade_preserves F L H1 H2 HL). Qed.
-Print Assumptions C13_upgrade_preserves_partial.
-(* partial: the full statement also covers fields whose nested struct type gained an optional key or
-   lost a key (FieldType::is_compatible_upgrade_of); here [same_types] restricts to surviving fields
-   with equal types.  The nested case is exercised by the correspondence run (streams up/doc). *)
+Print Assumptions C13_upgrade_preserves_same_types.
+(* the special case of equal surviving types; the general statement is C13_upgrade_preserves below *)
+
+(* (4b) nested structs may lose keys and gain optional keys at ANY depth — inside homogeneous arrays
+   (every element), tuples, wildcard and keyed maps, options.  A value valid and canonical under the old
+   type is encodable; decoding it schema-less and materialising it under the new type gives exactly the
+   old value restricted to what the new type declares ([prune_at new]: surviving members unchanged,
+   removed ones dropped), and that value is valid and canonical under the new type (so the statement
+   chains over further upgrades).  [compat_ne] is is_compatible_upgrade_of minus "a struct becomes the
+   untyped Map({}) or back" (C13_compat_ne_is_permitted); map types / values carry each key once. *)
+Theorem C13_upgrade_preserves_nested :
+  forall (F : fops) (L : limits), IEEE F -> max_depth L <= max_conv L ->
+  forall new old v d, wf_type new = true -> compat_ne new old = true ->
+    canon old v = true -> wf_value v = true -> vkeys_ok v = true ->
+    validate_inner F old v = true -> vshape_ok L d v = true ->
+    exists r, readback F v = Some r /\
+      normalize_at F L new d (prune_at L new d r) = prune_at L new d v /\
+      validate_inner F new (prune_at L new d v) = true /\
+      canon new (prune_at L new d v) = true.
+Proof. intros F L [H1 H2] HL new. exact (evolve_inner F L H1 H2 HL new). Qed.
+Print Assumptions C13_upgrade_preserves_nested.
+
+Theorem C13_compat_ne_is_permitted : forall new old, compat_ne new old = true -> compat new old = true.
+Proof. exact compat_ne_compat. Qed.
+Print Assumptions C13_compat_ne_is_permitted.
+
+(* whole documents: after a permitted upgrade (fields added / removed / re-added at the top level, keys of
+   nested structs removed or added at any depth of the surviving fields), a document valid under the old
+   schema is readable under the new one and Document::try_from_doc returns it restricted to what the new
+   schema declares: removed fields and removed nested keys dropped, everything else bit-identical *)
+Theorem C13_upgrade_preserves :
+  forall (F : fops) (L : limits), IEEE F -> max_depth L <= max_conv L ->
+  forall new old s' fs, upgrade_with new old = Some s' -> schema_wf old = true -> schema_wf s' = true ->
+    evolves s' old ->
+    fields_wf fs = true -> fields_vkeys fs = true -> fields_canon old fs = true -> schema_validate F L old fs = true ->
+    exists raw, readback_fields F fs = Some raw /\ try_from_doc F L s' raw = Some (restrict_doc L s' fs).
+Proof. intros F L [H1 H2] HL. exact (upgrade_preserves_full F L H1 H2 HL). Qed.
+Print Assumptions C13_upgrade_preserves.
+
+(* pruning never breaks the complexity budget (so a pruned old value passes validate_complexity) *)
+Theorem C13_prune_within_budget :
+  forall (L : limits) t d v, complexity_ok L v = true -> complexity_ok L (prune_at L t d v) = true.
+Proof. exact prune_complexity. Qed.
+Print Assumptions C13_prune_within_budget.
+
+(* what "restricted to what the new type declares" means: a homogeneous array prunes EVERY element, a
+   keyed map keeps exactly the declared keys (each pruned by its own type), an option looks through *)
+Theorem C13_prune_shape :
+  forall (L : limits) d, too_deep L d = false ->
+  (forall t l, prune_at L (TArray [t]) d (VArray l) = VArray (map (prune_at L t (S d)) l)) /\
+  (forall t1 t2 ts l, prune_at L (TArray (t1 :: t2 :: ts)) d (VArray l)
+                      = VArray (zip_apply (fun ft => prune_at L ft (S d)) (t1 :: t2 :: ts) l)) /\
+  (forall m kvs, keyedT m ->
+     prune_at L (TMap m) d (VMap kvs) =
+     VMap (map (fun kv => (fst kv, with_type (fun ft => prune_at L ft (S d) (snd kv)) (snd kv) (fst kv) m))
+               (filter (fun kv => mem_key (fst kv) m) kvs))) /\
+  (forall t x, x <> VNull -> prune_at L (TOption t) d x = prune_at L t d x).
+Proof.
+  intros L d Hd. repeat split; intros.
+  - cbn. rewrite Hd. reflexivity.
+  - cbn. rewrite Hd. reflexivity.
+  - apply prune_keyed; assumption.
+  - apply prune_option; assumption.
+Qed.
+Print Assumptions C13_prune_shape.
+
+Example C13_upgrade_nested_nonvacuous :
+  let item_v1 := TMap [(KText "note", TOption TText); (KText "sku", TText)]%string in
+  let item_v2 := TMap [(KText "sku", TText)]%string in
+  let v := VArray [VMap [(KText "note", VText "fragile"); (KText "sku", VText "a-1")];
+                   VMap [(KText "note", VNull); (KText "sku", VText "a-2")]]%string in
+  let F := fops_of ([], []) in
+  wf_type (TArray [item_v2]) = true /\ compat_ne (TArray [item_v2]) (TArray [item_v1]) = true /\
+  canon (TArray [item_v1]) v = true /\ vkeys_ok v = true /\ validate F gen_limits (TArray [item_v1]) v = true /\
+  read_norm F gen_limits (TArray [item_v2]) v
+    = VArray [VMap [(KText "sku", VText "a-1")]; VMap [(KText "sku", VText "a-2")]]%string.
+Proof. vm_compute. repeat split; reflexivity. Qed.
 
 (* generated facts: the code as it is now *)
 Theorem C13_gen_budget_below_conversion_depth : max_depth gen_limits <= max_conv gen_limits.
@@ -128,6 +201,19 @@ Theorem C13_gen_normalize_arms :
   prune_arms = ["Array/"; "Map/guarded"; "Option/guarded"]%string.
 Proof. repeat split; reflexivity. Qed.
 Print Assumptions C13_gen_normalize_arms.
+
+(* inner structure of the composite arms of prune_undeclared_at / normalize_at: arrays dispatch on the number of
+   element types (none: untouched; one: EVERY element with that type; several: pairwise), maps on
+   wildcard / keyed (prune retains exactly the declared keys) — the shape Schema.Model transcribes *)
+Theorem C13_gen_composite_arms :
+  prune_array_shape = ["match types.len()"; "arm 0"; "arm 1"; "arm _"; "every element with types[0]"; "zip types values";
+                       "recursive calls 2"]%string /\
+  normalize_array_shape = prune_array_shape /\
+  prune_map_shape = ["as_wildcard_map"; "wildcard: every value"; "retain declared keys"; "keyed: types.get(k)";
+                     "recursive calls 2"]%string /\
+  normalize_map_shape = ["as_wildcard_map"; "wildcard: every value"; "keyed: types.get(k)"; "recursive calls 2"]%string.
+Proof. repeat split; reflexivity. Qed.
+Print Assumptions C13_gen_composite_arms.
 
 Theorem C13_gen_step_orders :
   validate_steps = ["validate_complexity"; "validate_inner"]%string /\
@@ -175,6 +261,29 @@ Theorem C13_option_json_null_refuted :
     write_read F gen_limits t v = Some (Some VNull) /\ v <> VNull.
 Proof. exists (TOption TJson), (VJson JNull). vm_compute. split; [reflexivity | discriminate]. Qed.
 Print Assumptions C13_option_json_null_refuted.
+
+(* Nested keys have no retirement watermark: a key removed from a nested struct and re-added later with
+   another type meets the stale entry of a document that was never rewritten.  Both steps are permitted
+   upgrades, the document reads under v2, and is rejected under v3 (known finding nested-key-readd-stale). *)
+Theorem C13_nested_key_readd_refuted :
+  exists (t1 t2 t3 : ftype) (v : fvalue),
+    let F := fops_of ([], []) in
+    compat_ne t2 t1 = true /\ compat_ne t3 t2 = true /\
+    canon t1 v = true /\ entry_validate F gen_limits t1 v = true /\
+    (exists r, readback F v = Some r /\
+       entry_validate F gen_limits t2 (read_norm F gen_limits t2 r) = true /\
+       entry_validate F gen_limits t3 (read_norm F gen_limits t3 r) = false).
+Proof.
+  exists (TArray [TMap [(KText "note", TOption TText); (KText "sku", TText)]])%string,
+         (TArray [TMap [(KText "sku", TText)]])%string,
+         (TArray [TMap [(KText "note", TOption TI64); (KText "sku", TText)]])%string,
+         (VArray [VMap [(KText "note", VText "fragile"); (KText "sku", VText "a-1")]])%string.
+  cbv zeta. split; [vm_compute; reflexivity|]. split; [vm_compute; reflexivity|]. split; [vm_compute; reflexivity|].
+  split; [vm_compute; reflexivity|].
+  exists (VArray [VMap [(KText "note", VText "fragile"); (KText "sku", VText "a-1")]])%string.
+  vm_compute. repeat split; reflexivity.
+Qed.
+Print Assumptions C13_nested_key_readd_refuted.
 
 (* ------------------------------------------------------------------ non-vacuity *)
 Example C13_roundtrip_nonvacuous :
